@@ -8,6 +8,7 @@
 From Coq Require Import ZArith List Bool.
 Require Import QzBase.Calendar QzBase.GoTime QzBase.Fields.
 Require Import QzCron.Gen.Params QzCron.Gen.CsmSrc QzCron.CsmModel QzCron.SrcEquiv QzCron.NftProofs QzCron.SrcMachine.
+Require Import QzCron.NextFire QzCron.GoTimeLoc QzCron.Gen.CronSrc QzCron.CronSrcEquiv.
 Import ListNotations.
 Open Scope Z_scope.
 
@@ -97,4 +98,25 @@ Print Assumptions SrcTie_wall_next.
 Example SrcTie_wall_next_example :
   src_wall_next {| fl_sec := [0]; fl_min := [15]; fl_hour := [10]; fl_dom := [0]; fl_dom_n := 3; fl_mon := [];
                    fl_dow := []; fl_dow_n := 0; fl_year := [] |} (2024, 6, 1, 0, 0, 0) = WNext (2024, 6, 28, 10, 15, 0).
+Proof. vm_compute. reflexivity. Qed.
+
+(* quartz/cron.go's firstAfter (Gen/CronSrc.v, translated on every run): for EVERY zone table, wall clock
+   reading u (as UTC seconds) and prev, the Go function returns the instant the model's first_after returns
+   (in the trigger's location, found = true), or (zero Time, false) when the model finds none.  first_after is
+   what the DST theorems of C14 (and NextFire.v's loop) are about. *)
+Theorem SrcTie_first_after : forall z u prev_s,
+  g_firstAfter (mk_time utc_zone u) z (mk_time z prev_s) =
+  match first_after z u prev_s with
+  | Some t => (mk_time z t, true)
+  | None => (time_zeroTime, false)
+  end.
+Proof. exact src_first_after. Qed.
+Print Assumptions SrcTie_first_after.
+
+(* non-vacuity: a location that falls back by one hour at t = 10000 (offset 7200 -> 3600): the reading 12000
+   occurs twice (at 4800 and 8400); after prev = 5000 the Go code finds the second occurrence *)
+Example SrcTie_first_after_example :
+  g_firstAfter (mk_time utc_zone 12000) {| z_off0 := 7200; z_trans := [(7000, 3600)] |}
+               (mk_time {| z_off0 := 7200; z_trans := [(7000, 3600)] |} 5000)
+  = (mk_time {| z_off0 := 7200; z_trans := [(7000, 3600)] |} 8400, true).
 Proof. vm_compute. reflexivity. Qed.
